@@ -3,6 +3,7 @@ package altair
 import (
 	"bytes"
 	"context"
+	"encoding/json"
 
 	"github.com/protolambda/zrnt/eth2/beacon/common"
 	"github.com/protolambda/ztyp/codec"
@@ -11,6 +12,13 @@ import (
 )
 
 type InactivityScores []Uint64View
+
+func (li InactivityScores) MarshalJSON() ([]byte, error) {
+	if li == nil {
+		return []byte("[]"), nil // encode as empty list, not null
+	}
+	return json.Marshal([]Uint64View(li))
+}
 
 func (a *InactivityScores) Deserialize(spec *common.Spec, dr *codec.DecodingReader) error {
 	return dr.List(func() codec.Deserializable {
